@@ -1145,6 +1145,9 @@ def m_int_min(e, c, a):
     x, y = a
     if is_sym(x) or is_sym(y): raise Unsupported('symbolic min')
     return min(x, y)
+def _cmp_ty(c):
+    m = re.match(r'<&*(\w+) as PartialOrd', c)
+    return m.group(1) if m else 'u64'
 def m_ord_cmp(e, c, a):
     x = unref(a[0]); y = unref(a[1])
     if is_sym(x) or is_sym(y): raise Unsupported('symbolic cmp')
@@ -1466,6 +1469,7 @@ TRAIT_MODELS = {
     ('PartialEq', 'eq'): m_eq,
     ('PartialEq', 'ne'): m_ne,
     ('Clone', 'clone'): m_clone,
+    ('Clone', 'clone_from'): lambda e, c, a: (setattr(a[0].cell, 'v', clone_value(e, a[1])), UNIT)[1],
     ('Default', 'default'): m_default,
     ('Deref', 'deref'): m_deref,
     ('DerefMut', 'deref_mut'): m_deref,
@@ -1485,6 +1489,11 @@ TRAIT_MODELS = {
     ('Index', 'index'): m_vec_index,
     ('IndexMut', 'index_mut'): m_vec_index,
     ('Ord', 'cmp'): m_ord_cmp,
+    ('PartialOrd', 'gt'): lambda e, c, a: e.binop('Gt', unref(a[0]), unref(a[1]), _cmp_ty(c)),
+    ('PartialOrd', 'ge'): lambda e, c, a: e.binop('Ge', unref(a[0]), unref(a[1]), _cmp_ty(c)),
+    ('PartialOrd', 'lt'): lambda e, c, a: e.binop('Lt', unref(a[0]), unref(a[1]), _cmp_ty(c)),
+    ('PartialOrd', 'le'): lambda e, c, a: e.binop('Le', unref(a[0]), unref(a[1]), _cmp_ty(c)),
+    ('PartialOrd', 'partial_cmp'): lambda e, c, a: some(m_ord_cmp(e, c, a)),
     ('Ord', 'max'): m_int_max,
     ('Ord', 'min'): m_int_min,
 }
